@@ -26,6 +26,8 @@ func (self ValueObject) Display() (string, *VmInterrupt) {
 		fields = append(fields, fmt.Sprintf("%s: %s", key, disp))
 	}
 
+	sort.Strings(fields)
+
 	return fmt.Sprintf("{\n    %s\n}", strings.Join(fields, ",\n    ")), nil
 }
 
@@ -38,6 +40,8 @@ func (self ValueObject) DisplayFlat() (string, *VmInterrupt) {
 		}
 		fields = append(fields, fmt.Sprintf("%s: %s", key, disp))
 	}
+
+	sort.Strings(fields)
 
 	return fmt.Sprintf("{ %s }", strings.Join(fields, ", ")), nil
 }
